@@ -29,7 +29,7 @@ Finish(o, s, n, out) ==
 
 Begin(d, strict, fail) ==
     /\ ~cur.active /\ Len(hist) < MaxCalls
-    /\ Docs[d].bytes => fail = 0          \* a byte string is not a scripted source
+    /\ (Docs[d].bytes \/ Docs[d].frag \in BadContainers) => fail = 0          \* a byte string is not a scripted source; a rejected call reads nothing
     /\ (LastProbe /\ Len(hist) = MaxCalls - 1 /\ MaxCalls > 1) => (~strict /\ fail = 0)
     /\ obj' = LcBegin(obj, Docs[d].frag, strict)
     /\ sh'  = LcBegin(NewParser, Docs[d].frag, strict)
@@ -38,11 +38,11 @@ Begin(d, strict, fail) ==
     /\ UNCHANGED hist
 
 Read ==      \* the tokenizer asks the source for the next chunk
-    /\ cur.active /\ cur.queue = <<>> /\ cur.r < Len(Docs[cur.doc].reads) /\ cur.fail # cur.r + 1
+    /\ cur.active /\ obj.phase # "rejected" /\ cur.queue = <<>> /\ cur.r < Len(Docs[cur.doc].reads) /\ cur.fail # cur.r + 1
     /\ cur' = [cur EXCEPT !.r = @ + 1, !.queue = Docs[cur.doc].reads[cur.r + 1]]
     /\ UNCHANGED <<obj, sh, ns, hist>>
 AbortSource ==      \* ... and the source raises
-    /\ cur.active /\ cur.queue = <<>> /\ cur.r < Len(Docs[cur.doc].reads) /\ cur.fail = cur.r + 1
+    /\ cur.active /\ obj.phase # "rejected" /\ cur.queue = <<>> /\ cur.r < Len(Docs[cur.doc].reads) /\ cur.fail = cur.r + 1
     /\ Finish(obj, sh, ns, "SourceError")
     /\ UNCHANGED <<obj, sh, ns>>
 
@@ -60,13 +60,17 @@ Step        == StepCommon("plain")
 RecordError == StepCommon("record")
 AbortStrict == StepCommon("abort")
 
+Reject ==      \* an argument outside the domain: the call raises before the first read
+    /\ cur.active /\ obj.phase = "rejected"
+    /\ Finish(obj, sh, ns, "rejected")
+    /\ UNCHANGED <<obj, sh, ns>>
 Return ==
-    /\ cur.active /\ cur.queue = <<>> /\ cur.r = Len(Docs[cur.doc].reads)
+    /\ cur.active /\ obj.phase # "rejected" /\ cur.queue = <<>> /\ cur.r = Len(Docs[cur.doc].reads)
     /\ Finish(obj, sh, ns, "ok")
     /\ UNCHANGED <<obj, sh, ns>>
 
 Next == \/ \E d \in DocSet, strict \in BOOLEAN : \E fail \in 0..Len(Docs[d].reads) : Begin(d, strict, fail)
-        \/ Read \/ AbortSource \/ Step \/ RecordError \/ AbortStrict \/ Return
+        \/ Read \/ AbortSource \/ Step \/ RecordError \/ AbortStrict \/ Return \/ Reject
 
 -----------------------------------------------------------------------------
 \* --- theorems (to hold with KnownDefects = {}) ---
@@ -85,10 +89,12 @@ ThmInside == ~obj.outside /\ ~sh.outside
 ThmStrict == \A i \in 1..Len(hist) :
     LET h == hist[i] IN
     /\ h.out = "SourceError" => h.fail # 0
-    /\ h.out \in {"ok", "ParseError", "SourceError"}
+    /\ h.out \in {"ok", "ParseError", "SourceError", "rejected"}
     /\ h.out = "ParseError" => h.strict /\ StrictFirst(h.nsErrors, h.out, h.errors)
     /\ (h.strict /\ h.out = "ok") => h.nsErrors = <<>>
     /\ (~h.strict /\ h.out = "ok") => h.errors = h.nsErrors
+\* a call with an out-of-domain argument is rejected on the reused and on the brand-new object alike, and changes nothing that lasts
+ThmRejected == \A i \in 1..Len(hist) : (Docs[hist[i].doc].frag \in BadContainers) <=> hist[i].out = "rejected"
 ThmDocs   == (Export /\ MaxCalls = 0) => PrintT(ToJson([docs |-> Docs]))
 ThmExport == (Export /\ MaxCalls > 0 /\ ~cur.active /\ Len(hist) = MaxCalls) => PrintT(ToJson([hist |-> hist]))
 =============================================================================
